@@ -97,6 +97,9 @@ def check(ctx, extra_random_steps=0):
     ctx.tlc_actions("MC_EngineCore", "MC_EngineCore_cov.cfg",
                     ["MarketItem", "Disconnects", "AccountItem", "TradingState", "Commands", "Shutdown"])
     ctx.tlc_mc("MC_EngineCore", "MC_EngineCore.cfg" if ctx.quick else "MC_EngineCore_thorough.cfg", timeout=3000, coverage=False)
+    if ctx.pid == "C19" and not ctx.quick:
+        # every filter (all subsets) x both commands from 1440 engine states, one step, exhaustive
+        ctx.tlc_mc("MC_EngineCore", "MC_EngineCore_scope.cfg", timeout=3000, coverage=False)
     nb = 600 if ctx.quick else 8000
     p_b, scn_b = ctx.tlc_gen("Gen_EngineCore", "Gen_EngineCore.cfg", "behaviours.ndjson", simulate=(nb, 40), timeout=900)
     ctx.sample({"kind": "TLC simulated behaviour (events + environments)", "scenario": scn_b[0]})
